@@ -431,8 +431,9 @@ ASMJIT_FAVOR_SIZE Error FormatterInternal::format_register(
     FormatElementData element_data = format_element_data_table[element_type];
     uint32_t element_count = element_data.element_count;
 
-    if (reg_type == RegType::kVec64) {
-      element_count /= 2u;
+    // The table describes a 128-bit vector - scale the element count down to the size of the register (B|H|S|D|Q).
+    if (reg_type >= RegType::kVec8 && reg_type <= RegType::kVec128) {
+      element_count >>= uint32_t(RegType::kVec128) - uint32_t(reg_type);
     }
 
     ASMJIT_PROPAGATE(sb.append('.'));
